@@ -756,6 +756,26 @@ class Cases:
             root = build_doc(etree, d)
             self.emit(root.getroottree(), rll(rng), "synth:random-tree")
 
+    def gen_nonascii_names(self, n: int):
+        """tag and attribute names outside ASCII (legal XML names; Capella has none): the writer counts the tag in
+        UTF-8 bytes and everything else in code points - modelled as coded, compared byte for byte, no monitor"""
+        rng, etree = self.ctx.rng, self.etree
+        names = ["\xe9l\xe9ment", "\u00fcber", "\u6807\u7b7e", "\u0436\u0443\u043a", "\u00e9" * 8, "a\u00e9", "\U00010400\U00010401", "\u0e01\u0e02",
+                 "x\u00b7y", "\u03b1\u03b2\u03b3"]
+        for _ in range(n):
+            root = etree.Element(rng.choice(names + ["root"]), nsmap={"xmi": XMI, "xsi": XSI})
+            cur = root
+            for _ in range(rng.randint(0, 3)):
+                cur = etree.SubElement(cur, rng.choice(names + TAGS[:3]))
+                for _ in range(rng.randint(0, 4)):
+                    try:
+                        cur.set(rng.choice(names + ["id", "name"]), rstr(rng, MILD + ["\xe9", "\u20ac", "\U0001F600"], 0, 30))
+                    except ValueError:
+                        pass
+            for _ in range(rng.randint(0, 4)):
+                root.set(rng.choice(names + ["id", "name"]), rstr(rng, MILD + ["\xe9"], 0, 30))
+            self.emit(root.getroottree(), rng.choice([20, 40, 60, 80, 80, MAXSIZE]), "nonascii:names", monitor=False)
+
     def gen_subelems(self, pool, n: int):
         rng = self.ctx.rng
         for _ in range(n):
@@ -839,6 +859,7 @@ def run(ctx: Ctx) -> Outcome:
     cs.gen_unshaped(pool, ctx.pick(300, 3000))
     cs.gen_synth(ctx.pick(800, 6000))
     cs.gen_subelems(pool, ctx.pick(300, 3000))
+    cs.gen_nonascii_names(ctx.pick(250, 2500))
 
     # ---- (c) _escape
     import inspect
@@ -879,6 +900,15 @@ def run(ctx: Ctx) -> Outcome:
         "text": [c for c in cps if exs.P_ESCAPE_TEXT.fullmatch(chr(c))],
         "comments": [c for c in cps if exs.P_ESCAPE_COMMENTS.fullmatch(chr(c))],
         "space": [c for c in cps if chr(c).isspace()]}))
+    # the UTF-8 boundary: `str.encode` against the model's encoder, the tag width against its length in characters
+    enc = [chr(c) for c in (0, 0x7F, 0x80, 0x7FF, 0x800, 0xD7FF, 0xE000, 0xFFFF, 0x10000, 0x10FFFF)] + \
+        ["".join(chr(rng.choice([rng.randint(0, 0x7F), rng.randint(0x80, 0x7FF), rng.randint(0x800, 0xD7FF), rng.randint(0xE000, 0xFFFF),
+                                  rng.randint(0x10000, 0x10FFFF)])) for _ in range(rng.randint(0, 12))) for _ in range(ctx.pick(300, 3000))]
+    for s_ in enc:
+        b_ = s_.encode("utf-8")
+        cs.req.append({"op": "xml.encode", "s": s_})
+        cs.meta.append(("encode", {"s": s_}, {"bytes": list(b_), "width": len(b_), "chars": len(s_)}))
+        out.case(("enc", s_), None, len(b_) != len(s_))
     for v, prec in [("5.0.0", 1), ("6.1.2", 1), ("6.1.2", 2), ("1.4", 3), ("7", 1), ("", 1), ("1.", 2), ("..", 1),
                     ("1..2", 2), ("10.20.30.40", 2), ("a.b.c", 1), (".5", 1)] + \
                    [(rstr(rng, list("0123456789..ab"), 0, 9), rng.randint(1, 4)) for _ in range(ctx.pick(100, 1000))]:
